@@ -230,15 +230,46 @@ package recordio
 //@   exit [C12,C04:returns-the-decoded-fields] err == nil ==> payloadSizeUncompressed == callres(binary.ReadUvarint, 1, 0) &&
 //@        payloadSizeCompressed == callres(binary.ReadUvarint, 2, 0) && (recordNilBool <==> callres(checksumByteReader.ReadByte, 0, 0) == 1)
 
-//@ func (*MMapReader).ReadNextAt
+//@ func (*MMapReader).readNextAt
+//@   assumed
+//@   // (assumed is the frame only: the function writes pooled byte buffers and objects it allocates, never the reader's
+//@   //  fields; every exit clause below is verified against the body)
+//@   modifies fresh(*)
 //@   props C12 C04 C09
 //@   replay recordio_damage
 //@   requires r.header != nil && r.mmapReader != nil && r.bufferPool != nil
-//@   exit [C12:payload-completely-read] r1 == nil && !isnil(r0) && called(readRecordHeaderV4, 0) ==>
+//@   exit [C12:payload-completely-read] err == nil && !isnil(record) && called(readRecordHeaderV4, 0) ==>
 //@        called(ReaderAt.ReadAt, 1) && callres(ReaderAt.ReadAt, 1, 1) == nil && callres(ReaderAt.ReadAt, 1, 0) == expectedBytesRead
-//@   exit [C12:header-accepted-first] r1 == nil && called(readRecordHeaderV4, 0) ==> callres(readRecordHeaderV4, 0, 3) == nil
-//@   exit [C04:nil-record-stays-nil] r1 == nil && called(readRecordHeaderV4, 0) && callres(readRecordHeaderV4, 0, 2) ==> isnil(r0)
-//@   exit [C04:empty-is-not-nil] r1 == nil && called(readRecordHeaderV4, 0) && !callres(readRecordHeaderV4, 0, 2) ==> !isnil(r0)
+//@   exit [C12:header-accepted-first] err == nil && called(readRecordHeaderV4, 0) ==> callres(readRecordHeaderV4, 0, 3) == nil
+//@   exit [C04:nil-record-stays-nil] err == nil && called(readRecordHeaderV4, 0) && callres(readRecordHeaderV4, 0, 2) ==> isnil(record)
+//@   exit [C04:empty-is-not-nil] err == nil && called(readRecordHeaderV4, 0) && !callres(readRecordHeaderV4, 0, 2) ==> !isnil(record)
+//@   exit [C04:header-flag-is-truthful] called(readRecordHeaderV4, 0) ==> (headerParsed <==> callres(readRecordHeaderV4, 0, 3) == nil)
+//@   exit [C04:no-record-without-a-header] called(readRecordHeaderV4, 0) && !headerParsed ==> err != nil && isnil(record)
+
+//@ func (*MMapReader).ReadNextAt
+//@   props C12 C04 C09
+//@   requires r.header != nil && r.mmapReader != nil && r.bufferPool != nil
+//@   exit [same-answer-as-the-probe] r0 === callres(MMapReader.readNextAt, 0, 0) && r1 == callres(MMapReader.readNextAt, 0, 2)
+
+// Random access by offset (C04, used by the disk index of C03): the scan looks at every byte as a possible marker start, stays
+// inside the bytes that were read, and a candidate position without a parsable record header never ends the search.
+//@ func (*MMapReader).SeekNext
+//@   props C04 C03
+//@   replay seeknext_model
+//@   bounded seeknext_model SeekNext from every byte offset: the full list and all ordered pairs of 10 adversarial payloads (marker bytes, marker prefixes at the end, a marker followed by an overflowing varint, empty, nil) x 2 compression types; result must be the first record starting at or after the offset, or io.EOF behind the last record
+//@   requires r.header != nil && r.mmapReader != nil && r.bufferPool != nil && offset < 4611686018427387904 && r.seekLen > 0
+//@   exit [C04,C03:a-candidate-without-a-header-never-fails-the-seek] r2 != nil && called(MMapReader.readNextAt, 0) && !errIs(r2, io.EOF) &&
+//@        r2 === callres(MMapReader.readNextAt, 0, 2) ==> callres(MMapReader.readNextAt, 0, 1)
+//@   exit [C04:found-record-is-returned-as-read] r2 == nil ==> called(MMapReader.readNextAt, 0) && callres(MMapReader.readNextAt, 0, 2) == nil &&
+//@        r1 === callres(MMapReader.readNextAt, 0, 0) && r0 == trialOffset
+//@   loop 0
+//@     invariant 0 <= next && next <= max(offset, mmLen(r.mmapReader)) && r.header != nil && r.mmapReader != nil && r.bufferPool != nil
+//@   loop 1
+//@     invariant 0 <= i && i <= numRead && 0 < numRead && numRead <= len(headerBufPooled) && 0 <= next && next + numRead <= mmLen(r.mmapReader) &&
+//@               r.header != nil && r.mmapReader != nil && r.bufferPool != nil
+//@   loop 2
+//@     invariant 0 <= i && i <= ix && ix < numRead && numRead <= len(headerBufPooled) && 0 <= j && ix - i == j
+//@   safety on
 
 //@ func (*FileReader).ReadNext
 //@   props C12 C04
